@@ -170,6 +170,13 @@ def mutations(rng, tok, key, alg, pool, dense):
                 yield ("unprotected alg relabelled to " + other_alg, dict(tok, header=dict(tok["header"], alg=other_alg)), None, key, False, False)
                 yield ("unprotected alg relabelled to %s, key declares it" % other_alg, dict(tok, header=dict(tok["header"], alg=other_alg)), None, dict(key, alg=other_alg), False, False)
     # 7. general-form containers
+    # the signature text re-spelled with characters outside the URL-safe alphabet (standard base64, padding, a line end):
+    # the same bytes would come out of a lenient decoder - the text changed, verification fails
+    if "-" in sigv or "_" in sigv:
+        yield ("signature in the standard base64 alphabet", dict(tok, signature=sigv.replace("-", "+").replace("_", "/")), None, key, False, False)
+    for tail in ("=", "==", "\n", " ", "\u0000"):
+        yield ("signature followed by %r" % tail, dict(tok, signature=sigv + tail), None, key, False, False)
+    yield ("signature preceded by a space", dict(tok, signature=" " + sigv), None, key, False, False)
     yield ("signatures [tok]", {"payload": tok["payload"], "signatures": [{k: v for k, v in tok.items() if k != "payload"}]}, None, key, False, True)
     yield ("signatures []", {"payload": tok["payload"], "signatures": []}, None, key, False, False)
     yield ("signatures [] + flattened members", dict(tok, signatures=[]), None, key, False, False)
